@@ -398,6 +398,15 @@ class Precondition:
         }
 
 
+def fresh_variable_name(variable: str, text: str, renaming: Dict[str, str]) -> str:
+    """Returns the first of variable_0, variable_1, ... that occurs neither in the PDDL text nor in the renaming."""
+    index = 0
+    while any(f"{variable}_{index}" in names for names in (text, renaming, renaming.values())):
+        index += 1
+
+    return f"{variable}_{index}"
+
+
 class UniversalPrecondition(Precondition):
     """Class representing a universally quantified precondition."""
 
@@ -437,17 +446,25 @@ class UniversalPrecondition(Precondition):
         )
 
     def change_signature(self, old_to_new_param_names: Dict[str, str]) -> None:
-        """Change the signature of the quantified condition; the quantified parameter is bound here and is kept.
+        """Change the signature of the quantified condition; the quantified parameter is bound here and is kept,
+        unless one of the new names equals it - then the quantified parameter is renamed to a fresh name first.
 
         :param old_to_new_param_names: the mapping of old parameter names to new parameter names.
         """
-        super().change_signature(
-            {
-                old_name: new_name
-                for old_name, new_name in old_to_new_param_names.items()
-                if old_name != self.quantified_parameter
-            }
-        )
+        free_names_mapping = {
+            old_name: new_name
+            for old_name, new_name in old_to_new_param_names.items()
+            if old_name != self.quantified_parameter
+        }
+        if self.quantified_parameter in free_names_mapping.values():
+            # a renamed name would be captured by this quantifier: its own variable moves out of the way first.
+            fresh_name = fresh_variable_name(
+                self.quantified_parameter, self.print(should_simplify=False), free_names_mapping
+            )
+            super().change_signature({self.quantified_parameter: fresh_name})
+            self.quantified_parameter = fresh_name
+
+        super().change_signature(free_names_mapping)
 
     def __str__(self):
         return self.print()
